@@ -8,6 +8,7 @@ package verifsys
 // reached here too — with the new disturbance at an arbitrary point.
 
 import (
+	"fmt"
 	"math/rand"
 	"regexp"
 	"strings"
@@ -195,4 +196,67 @@ func EnvTags(s Scn, out string) []string {
 		add("out~NsThing-cluster-scoped")
 	}
 	return t
+}
+
+// LostStatus builds roll-outs of an ObjectSet with several delegated phases in which the status
+// update of some ObjectSet passes is lost (a third party touches the ObjectSet right before the
+// write: Conflict) — so that phase objects exist that the status never got to list — and tears
+// the ObjectSet down (archival / deletion) at a random point, possibly right after such a pass.
+func LostStatus(r *rand.Rand) Scn {
+	s := Scn{Cluster: r.Intn(5) == 0}
+	objNS := ""
+	if s.Cluster {
+		objNS = "ns1"
+	}
+	mk := func(name string) verifphase.PObj {
+		return verifphase.PObj{Kind: "NsThing", NS: objNS, Name: name, CP: "Prevent", Payload: "x", DryRun: "accept"}
+	}
+	names := []string{"a", "b", "c"}
+	nph := 2 + r.Intn(2)
+	os1 := SetSpec{Name: "os1"}
+	for i := 0; i < nph; i++ {
+		cls := "default"
+		if r.Intn(4) == 0 {
+			cls = ""
+		}
+		os1.Phases = append(os1.Phases, PhaseSpec{Name: fmt.Sprintf("p%d", i+1), Class: cls, Objects: []verifphase.PObj{mk(names[i])}})
+	}
+	s.Sets = []SetSpec{os1}
+	rec := func() Step {
+		st := Step{Op: "reconcile", Set: "os1"}
+		if r.Intn(3) == 0 { // the status update of this pass is lost
+			st.SetEnv = []SetEnv{{At: r.Intn(2), Op: "touch", Set: "os1"}}
+		}
+		return st
+	}
+	var steps []Step
+	for i, ph := range os1.Phases {
+		steps = append(steps, rec(), rec())
+		if ph.Class != "" {
+			steps = append(steps, Step{Op: "phase", Set: "os1-" + ph.Name})
+		}
+		steps = append(steps, Step{Op: "env", Env: []verifphase.EnvOp{{Op: "setReady", Kind: "NsThing", NS: "ns1", Name: names[i], Ready: true, ObsGen: -1}}})
+		if ph.Class != "" {
+			steps = append(steps, Step{Op: "phase", Set: "os1-" + ph.Name})
+		}
+	}
+	steps = append(steps, rec())
+	// the teardown starts at a random point of the roll-out
+	cut := 1 + r.Intn(len(steps))
+	steps = steps[:cut]
+	if r.Intn(2) == 0 {
+		steps = append(steps, Step{Op: "lifecycle", Set: "os1", Value: "Archived"})
+	} else {
+		steps = append(steps, Step{Op: "delete", Set: "os1"})
+	}
+	for k := 0; k < nph+2; k++ {
+		steps = append(steps, Step{Op: "reconcile", Set: "os1"})
+		for _, ph := range os1.Phases {
+			if ph.Class != "" {
+				steps = append(steps, Step{Op: "phase", Set: "os1-" + ph.Name})
+			}
+		}
+	}
+	s.Steps = steps
+	return s
 }
